@@ -19,7 +19,11 @@ def Reach (g : Cfg) (s : S) : Prop := ∃ ops, s = run g init ops
 
 theorem reach_inv {g : Cfg} {s : S} (h : Reach g s) : InvD g s ∧ InvA g s := by
   obtain ⟨ops, rfl⟩ := h
-  exact inv_run g ops init (invD_init g) (invA_init g)
+  exact inv_run g ops init (invD_init g) (invA_init g) invT_init
+
+theorem reach_invT {g : Cfg} {s : S} (h : Reach g s) : InvT s := by
+  obtain ⟨ops, rfl⟩ := h
+  exact invT_run g ops init invT_init
 
 theorem reach_step {g : Cfg} {s : S} (h : Reach g s) (op : Op) : Reach g (step g s op) := by
   obtain ⟨ops, rfl⟩ := h
@@ -46,6 +50,20 @@ theorem c01_drained (g : Cfg) (ops : List Op) :
 /-- **C01 (Write returns).** `Write` returning no error has accepted its whole input and reports that
     length; the block is appended to the accepted stream in one piece, and what goes to the kernel
     directly is a prefix of it. -/
+theorem c01_return_write_inv (g : Cfg) (s : S) (b : Bytes) (k : KAns) (hd : InvD g s)
+    (he : (write g s b k).2.err = .none) :
+    (write g s b k).2.n = b.length ∧ (write g s b k).1.accepted = s.accepted ++ b ∧
+    ∃ sent, sent <+: b ∧ (write g s b k).1.wire = s.wire ++ sent := by
+  unfold write at he ⊢
+  rw [if_neg (by simp [hd.nohang])] at he ⊢
+  split at he
+  · simp at he
+  · rw [if_neg (by assumption)]
+    obtain ⟨f1, f2, f3, _, _⟩ := finishCall_eff g (writeInner g s b k)
+    rw [f1] at he ⊢
+    obtain ⟨r1, _, sent, r3, r4⟩ := (writeInner_ret g s b k hd.pos).1 he
+    exact ⟨r1, by rw [f2, r4.acc], sent, r3, by rw [f3, r4.wire]⟩
+
 theorem c01_return_write (g : Cfg) (s : S) (b : Bytes) (k : KAns) (hr : Reach g s)
     (he : (write g s b k).2.err = .none) :
     (write g s b k).2.n = b.length ∧ (write g s b k).1.accepted = s.accepted ++ b ∧
@@ -63,6 +81,19 @@ theorem c01_return_write (g : Cfg) (s : S) (b : Bytes) (k : KAns) (hr : Reach g 
 
 /-- **C01 (Write fails).** `Write` returning an error has accepted nothing and sent nothing, and the
     connection is closed. -/
+theorem c01_error_write_inv (g : Cfg) (s : S) (b : Bytes) (k : KAns) (hd : InvD g s)
+    (he : (write g s b k).2.err ≠ .none) :
+    (write g s b k).1.accepted = s.accepted ∧ (write g s b k).1.wire = s.wire ∧ (write g s b k).1.closed = true := by
+  unfold write at he ⊢
+  rw [if_neg (by simp [hd.nohang])] at he ⊢
+  split
+  · rename_i hc; exact ⟨rfl, rfl, hc⟩
+  · rw [if_neg (by assumption)] at he
+    obtain ⟨f1, f2, f3, f4, _⟩ := finishCall_eff g (writeInner g s b k)
+    rw [f1] at he
+    have := (writeInner_ret g s b k hd.pos).2 he
+    exact ⟨by rw [f2, this], by rw [f3, this], f4 he⟩
+
 theorem c01_error_write (g : Cfg) (s : S) (b : Bytes) (k : KAns) (hr : Reach g s)
     (he : (write g s b k).2.err ≠ .none) :
     (write g s b k).1.accepted = s.accepted ∧ (write g s b k).1.wire = s.wire ∧ (write g s b k).1.closed = true := by
@@ -79,6 +110,20 @@ theorem c01_error_write (g : Cfg) (s : S) (b : Bytes) (k : KAns) (hr : Reach g s
 
 /-- **C01 (Writev returns).** As `Write`, for the concatenation of the buffers (also after a partial
     direct `writev`, and when the kernel refuses it with EAGAIN/EINTR). -/
+theorem c01_return_writev_inv (g : Cfg) (s : S) (bs : List Bytes) (k : KAns) (hd : InvD g s)
+    (he : (writev g s bs k).2.err = .none) :
+    (writev g s bs k).2.n = total bs ∧ (writev g s bs k).1.accepted = s.accepted ++ bs.flatten ∧
+    ∃ sent, sent <+: bs.flatten ∧ (writev g s bs k).1.wire = s.wire ++ sent := by
+  rw [writev_eq] at he ⊢
+  rw [if_neg (by simp [hd.nohang])] at he ⊢
+  split at he
+  · simp at he
+  · rw [if_neg (by assumption)]
+    obtain ⟨f1, f2, f3, _, _⟩ := finishCall_eff g (writevCore g s bs k)
+    rw [f1] at he ⊢
+    obtain ⟨r1, _, sent, r3, r4⟩ := (writevCore_ret g s bs k hd.pos).1 he
+    exact ⟨r1, by rw [f2, r4.acc], sent, r3, by rw [f3, r4.wire]⟩
+
 theorem c01_return_writev (g : Cfg) (s : S) (bs : List Bytes) (k : KAns) (hr : Reach g s)
     (he : (writev g s bs k).2.err = .none) :
     (writev g s bs k).2.n = total bs ∧ (writev g s bs k).1.accepted = s.accepted ++ bs.flatten ∧
@@ -95,6 +140,19 @@ theorem c01_return_writev (g : Cfg) (s : S) (bs : List Bytes) (k : KAns) (hr : R
     exact ⟨r1, by rw [f2, r4.acc], sent, r3, by rw [f3, r4.wire]⟩
 
 /-- **C01 (Writev fails).** -/
+theorem c01_error_writev_inv (g : Cfg) (s : S) (bs : List Bytes) (k : KAns) (hd : InvD g s)
+    (he : (writev g s bs k).2.err ≠ .none) :
+    (writev g s bs k).1.accepted = s.accepted ∧ (writev g s bs k).1.wire = s.wire ∧ (writev g s bs k).1.closed = true := by
+  rw [writev_eq] at he ⊢
+  rw [if_neg (by simp [hd.nohang])] at he ⊢
+  split
+  · rename_i hc; exact ⟨rfl, rfl, hc⟩
+  · rw [if_neg (by assumption)] at he
+    obtain ⟨f1, f2, f3, f4, _⟩ := finishCall_eff g (writevCore g s bs k)
+    rw [f1] at he
+    have := (writevCore_ret g s bs k hd.pos).2 he
+    exact ⟨by rw [f2, this], by rw [f3, this], f4 he⟩
+
 theorem c01_error_writev (g : Cfg) (s : S) (bs : List Bytes) (k : KAns) (hr : Reach g s)
     (he : (writev g s bs k).2.err ≠ .none) :
     (writev g s bs k).1.accepted = s.accepted ∧ (writev g s bs k).1.wire = s.wire ∧ (writev g s bs k).1.closed = true := by
@@ -111,6 +169,31 @@ theorem c01_error_writev (g : Cfg) (s : S) (bs : List Bytes) (k : KAns) (hr : Re
 
 /-- **C01 (Sendfile returns).** `Sendfile` returning no error has accepted the whole file range
     (`sendRange`: the requested length, clamped to the end of the file) and reports its length. -/
+theorem c01_return_sendfile_inv (g : Cfg) (s : S) (off len : Nat) (ks : List KAns) (hd : InvD g s) (hk : KWF ks)
+    (he : (sendfile g s off len ks).2.err = .none) :
+    (sendfile g s off len ks).2.n = sendRange g off len ∧
+    (sendfile g s off len ks).1.accepted = s.accepted ++ fileRange g off (sendRange g off len) ∧
+    ∃ sent, sent <+: fileRange g off (sendRange g off len) ∧ (sendfile g s off len ks).1.wire = s.wire ++ sent := by
+  unfold sendfile at he ⊢
+  rw [if_neg (by simp [hd.nohang])] at he ⊢
+  split at he
+  · simp at he
+  · rw [if_neg (by assumption)]
+    simp only at he ⊢
+    split
+    · rename_i h0
+      simp [h0, fileRange_zero]
+    · split
+      · exact ⟨rfl, rfl, [], List.nil_prefix, by simp [enqueueFile, pushItem]⟩
+      · rename_i hr0 hq
+        rw [if_neg hr0, if_neg hq] at he
+        split at he
+        · simp at he
+        · rename_i hf
+          rw [if_neg hf]
+          obtain ⟨_, sent, h1, h2⟩ := (sendfileLoop_ret g ks s off (sendRange g off len)).1 (by simpa using hf) hk
+          exact ⟨rfl, h2.acc, sent, h1, h2.wire⟩
+
 theorem c01_return_sendfile (g : Cfg) (s : S) (off len : Nat) (ks : List KAns) (hr : Reach g s) (hk : KWF ks)
     (he : (sendfile g s off len ks).2.err = .none) :
     (sendfile g s off len ks).2.n = sendRange g off len ∧
@@ -139,6 +222,31 @@ theorem c01_return_sendfile (g : Cfg) (s : S) (off len : Nat) (ks : List KAns) (
 
 /-- **C01 (Sendfile fails).** `Sendfile` returning an error leaves the connection closed; what it put on
     the wire before the fatal answer is a prefix of the requested range, appended as one block. -/
+theorem c01_error_sendfile_inv (g : Cfg) (s : S) (off len : Nat) (ks : List KAns) (hd : InvD g s)
+    (he : (sendfile g s off len ks).2.err ≠ .none) :
+    (sendfile g s off len ks).1.closed = true ∧
+    ∃ p, p <+: fileRange g off (sendRange g off len) ∧
+      (sendfile g s off len ks).1.accepted = s.accepted ++ p ∧ (sendfile g s off len ks).1.wire = s.wire ++ p := by
+  unfold sendfile at he ⊢
+  rw [if_neg (by simp [hd.nohang])] at he ⊢
+  split
+  · rename_i hc; exact ⟨hc, [], List.nil_prefix, by simp, by simp⟩
+  · rw [if_neg (by assumption)] at he
+    simp only at he ⊢
+    split
+    · rename_i h0; rw [if_pos h0] at he; simp at he
+    · rename_i h0
+      rw [if_neg h0] at he
+      split
+      · rename_i hq; rw [if_pos hq] at he; simp at he
+      · rename_i hq
+        rw [if_neg hq] at he
+        split
+        · rename_i hf
+          obtain ⟨h1, p, h2, h3⟩ := (sendfileLoop_ret g ks s off (sendRange g off len)).2 hf
+          exact ⟨h1, p, h2, h3.acc, h3.wire⟩
+        · rename_i hf; rw [if_neg hf] at he; simp at he
+
 theorem c01_error_sendfile (g : Cfg) (s : S) (off len : Nat) (ks : List KAns) (hr : Reach g s)
     (he : (sendfile g s off len ks).2.err ≠ .none) :
     (sendfile g s off len ks).1.closed = true ∧
@@ -174,14 +282,201 @@ theorem c01_flush_transmits_only (g : Cfg) (s : S) (ks : List KAns) :
   obtain ⟨⟨w, he⟩, _⟩ := flush_eff g s ks
   exact ⟨by simpa using he.acc, w, he.wire⟩
 
+/-! ### the ghost `accepted` is what the calls reported -/
+
+/-- the byte range a call REPORTED as accepted, computed from the model's return value `(n, err)` alone
+    (not from the ghost): the first `n` bytes of its input when it returned no error, nothing otherwise -/
+def reportedOf (g : Cfg) (s : S) : Op → Bytes
+  | .write b ks => if (writeOp g s b ks).2.err = .none then b.take (writeOp g s b ks).2.n.toNat else []
+  | .writev bs ks => if (writevOp g s bs ks).2.err = .none then bs.flatten.take (writevOp g s bs ks).2.n.toNat else []
+  | .sendfile off len ks =>
+    if (sendfileOp g s off len ks).2.err = .none then fileRange g off (sendfileOp g s off len ks).2.n.toNat else []
+  | _ => []
+
+/-- the concatenation, in op order, of the reported ranges of a run -/
+def reported (g : Cfg) (s : S) : List Op → Bytes
+  | [] => []
+  | op :: ops => reportedOf g s op ++ reported g (step g s op) ops
+
+/-- kernel answers of the run are well formed (sendfile(2) never reports 0 bytes without an error on a
+    non-empty request: the source file is not truncated) -/
+def OpsWF : List Op → Prop
+  | [] => True
+  | .sendfile _ _ ks :: ops => KWF ks ∧ OpsWF ops
+  | _ :: ops => OpsWF ops
+
+theorem closed_step (g : Cfg) (s : S) (op : Op) (hc : s.closed = true) : (step g s op).closed = true := by
+  by_cases hop : op = .teardown
+  · subst hop; simp only [step, teardown]; split <;> exact hc
+  · have := frozen_step g s op hc hop
+    simp only [Z, Prod.mk.injEq] at this
+    rw [this.1]; exact hc
+
+theorem closed_run (g : Cfg) (ops : List Op) : ∀ s : S, s.closed = true → (run g s ops).closed = true := by
+  induction ops with
+  | nil => intro s h; exact h
+  | cons op ops ih => intro s h; exact ih _ (closed_step g s op h)
+
+theorem accepted_evEnd (g : Cfg) (s : S) : (evEnd g s).accepted = s.accepted := by
+  unfold evEnd
+  split
+  · rfl
+  · simp only
+    have h0 : (if s.connEv = true then cResetRead g { s with connecting := false, connEv := false } else s).accepted = s.accepted := by
+      split
+      · have := D_cResetRead g { s with connecting := false, connEv := false }
+        simp only [D, Prod.mk.injEq] at this; exact this.2.2.2.2.2
+      · rfl
+    generalize (if s.connEv = true then cResetRead g { s with connecting := false, connEv := false } else s) = s0 at h0 ⊢
+    have h1 : (if s0.rearm = true then resetPollerEvent g { s0 with rearm := false } else s0).accepted = s.accepted := by
+      split
+      · have := D_resetPollerEvent g { s0 with rearm := false }
+        simp only [D, Prod.mk.injEq] at this; rw [this.2.2.2.2.2]; exact h0
+      · exact h0
+    generalize (if s0.rearm = true then resetPollerEvent g { s0 with rearm := false } else s0) = t at h1 ⊢
+    split
+    · split <;> exact h1
+    · exact h1
+
+/-- one step appends exactly the range its return value reports (if the connection is open afterwards) -/
+theorem step_reported (g : Cfg) (s : S) (op : Op) (hd : InvD g s) (ho : (step g s op).closed = false)
+    (hwf : OpsWF [op]) : (step g s op).accepted = s.accepted ++ reportedOf g s op := by
+  cases op with
+  | write b ks =>
+    have ho' : (write g s b (directAns ks)).1.closed = false := ho
+    show (write g s b (directAns ks)).1.accepted = s.accepted ++
+      (if (write g s b (directAns ks)).2.err = .none then b.take (write g s b (directAns ks)).2.n.toNat else [])
+    by_cases he : (write g s b (directAns ks)).2.err = .none
+    · obtain ⟨h1, h2, _⟩ := c01_return_write_inv g s b _ hd he
+      rw [if_pos he, h2, h1]; simp
+    · have := (c01_error_write_inv g s b _ hd he).2.2
+      rw [this] at ho'; exact absurd ho' (by simp)
+  | writev bs ks =>
+    have ho' : (writev g s bs (directAns ks)).1.closed = false := ho
+    show (writev g s bs (directAns ks)).1.accepted = s.accepted ++
+      (if (writev g s bs (directAns ks)).2.err = .none then bs.flatten.take (writev g s bs (directAns ks)).2.n.toNat else [])
+    by_cases he : (writev g s bs (directAns ks)).2.err = .none
+    · obtain ⟨h1, h2, _⟩ := c01_return_writev_inv g s bs _ hd he
+      rw [if_pos he, h2, h1]
+      have : bs.flatten.take (total bs) = bs.flatten := by
+        rw [← flatten_length_total]; exact List.take_length
+      simp [this]
+    · have := (c01_error_writev_inv g s bs _ hd he).2.2
+      rw [this] at ho'; exact absurd ho' (by simp)
+  | sendfile off len ks =>
+    have ho' : (sendfile g s off len ks).1.closed = false := ho
+    have hk : KWF ks := hwf.1
+    show (sendfile g s off len ks).1.accepted = s.accepted ++
+      (if (sendfile g s off len ks).2.err = .none then fileRange g off (sendfile g s off len ks).2.n.toNat else [])
+    by_cases he : (sendfile g s off len ks).2.err = .none
+    · obtain ⟨h1, h2, _⟩ := c01_return_sendfile_inv g s off len ks hd hk he
+      rw [if_pos he, h2, h1]; simp
+    · have := (c01_error_sendfile_inv g s off len ks hd he).1
+      rw [this] at ho'; exact absurd ho' (by simp)
+  | register =>
+    show (register g s).accepted = s.accepted ++ []
+    have := (invD_register g s hd)
+    unfold register
+    split
+    · simp
+    · split
+      · have := D_pAddRead g s; simp only [D, Prod.mk.injEq] at this; simp [this.2.2.2.2.2]
+      · have := D_pAddReadWrite g s; simp only [D, Prod.mk.injEq] at this; simp [this.2.2.2.2.2]
+  | registerDial =>
+    show (registerDial g s).accepted = s.accepted ++ []
+    unfold registerDial
+    split
+    · simp
+    · have := D_pAddReadWrite g { s with isWAdded := true, connecting := true }
+      simp only [D, Prod.mk.injEq] at this; simp [this.2.2.2.2.2]
+  | evTake o0 i e ks =>
+    show (evTake g s (o0 && (g.mode != .et || s.edgeDue)) i e ks).accepted = s.accepted ++ []
+    generalize (o0 && (g.mode != .et || s.edgeDue)) = o
+    unfold evTake
+    simp only
+    split
+    · simp
+    · have h1 : (if (g.mode == Mode.oneshot) = true then { s with disarmed := true } else s).accepted = s.accepted := by
+        split <;> rfl
+      generalize (if (g.mode == Mode.oneshot) = true then { s with disarmed := true } else s) = s1 at h1 ⊢
+      show (if (deliverable s o i e).1 = true then (if s1.connecting = true then { s1 with connEv := true } else flush g s1 ks) else s1).accepted = s.accepted ++ []
+      split
+      · split
+        · simpa using h1
+        · rw [(c01_flush_transmits_only g s1 ks).1]; simpa using h1
+      · simpa using h1
+  | evEnd => show (evEnd g s).accepted = s.accepted ++ []; rw [accepted_evEnd]; simp
+  | flipClosed =>
+    show (flipClosed s).accepted = s.accepted ++ []
+    unfold flipClosed; split <;> simp [flipWE, flip, stopTimer]
+  | teardown =>
+    show (teardown s).accepted = s.accepted ++ []
+    unfold teardown; split <;> simp
+  | setWriteDeadline z =>
+    show (setWriteDeadline s z).accepted = s.accepted ++ []
+    unfold setWriteDeadline; split <;> simp
+  | timerExpire =>
+    show (timerExpire s).accepted = s.accepted ++ []
+    unfold timerExpire; split <;> simp
+  | timerFire =>
+    show (timerFire s).accepted = s.accepted ++ []
+    unfold timerFire; split
+    · simp
+    · split <;> simp [flipWE, flip, stopTimer]
+
+theorem opsWF_cons (op : Op) (ops : List Op) (h : OpsWF (op :: ops)) : OpsWF [op] ∧ OpsWF ops := by
+  cases op <;> simp_all [OpsWF]
+
+theorem run_reported (g : Cfg) (ops : List Op) : ∀ s : S, InvD g s → InvT s → (run g s ops).closed = false → OpsWF ops →
+    (run g s ops).accepted = s.accepted ++ reported g s ops := by
+  induction ops with
+  | nil => intro s _ _ _ _; simp [run, reported]
+  | cons op ops ih =>
+    intro s hd ht ho hwf
+    obtain ⟨hw1, hw2⟩ := opsWF_cons op ops hwf
+    have hstep : (step g s op).closed = false := by
+      cases h : (step g s op).closed
+      · rfl
+      · have := closed_run g ops _ h
+        have ho' : (run g (step g s op) ops).closed = false := ho
+        rw [this] at ho'; exact absurd ho' (by simp)
+    have h1 := step_reported g s op hd hstep hw1
+    have h2 := ih (step g s op) (invD_step g s op hd ht.tp) (invT_step g s op ht) ho hw2
+    show (run g (step g s op) ops).accepted = s.accepted ++ (reportedOf g s op ++ reported g (step g s op) ops)
+    rw [h2, h1, List.append_assoc]
+
+/-- **C01 (accepted = reported).** While the connection is open, the ghost `accepted` of `c01_integrity` IS
+    the concatenation, in call order, of the byte ranges the calls reported as accepted through their return
+    values `(n, err)` — so `wire ++ pending = reported`: the peer receives exactly what was reported, each
+    call's range as one contiguous block at the position of the call (no interleaving: a call is one step,
+    see the critical-section predicates). Kernel answers well formed (`OpsWF`, only Sendfile needs it). -/
+theorem c01_accepted_is_reported (g : Cfg) (ops : List Op) (hwf : OpsWF ops) :
+    let s := run g init ops
+    s.closed = false → s.accepted = reported g init ops ∧ s.wire ++ pending g s.wl = reported g init ops := by
+  intro s hc
+  have h := run_reported g ops init (invD_init g) invT_init hc hwf
+  have h' : s.accepted = reported g init ops := by
+    show (run g init ops).accepted = reported g init ops
+    have : (run g init ops).accepted = init.accepted ++ reported g init ops := h
+    simpa [init] using this
+  exact ⟨h', by rw [← h']; exact (c01_integrity g ops).1 hc⟩
+
 /-! ### non-vacuity -/
 
 /-- a small configuration: LT, no bound, a 10-byte file 0,1,…,9 -/
 def g0 : Cfg := ⟨.lt, 0, 10, fun i => UInt8.ofNat i⟩
 
+/-- without the well-formedness the ghost and the reported stream can differ: sendfile(2) answering
+    "0 bytes, no error" makes Sendfile report the whole range although nothing of the rest is sent or queued -/
+theorem c01_reported_needs_wf :
+    (run g0 init [.register, .sendfile 0 5 [.wrote 2, .wrote 0]]).closed = false ∧
+    (run g0 init [.register, .sendfile 0 5 [.wrote 2, .wrote 0]]).accepted = [0, 1] ∧
+    reported g0 init [.register, .sendfile 0 5 [.wrote 2, .wrote 0]] = [0, 1, 2, 3, 4] := by
+  decide
+
 /-- a backlog of buffer and file data, partly transmitted: the invariant's three parts are all non-empty -/
 example :
-    let s := run g0 init [.register, .write [1, 2, 3, 4] (.wrote 1), .sendfile 2 3 [], .writev [[5], [], [6, 7]] .eagain,
+    let s := run g0 init [.register, .write [1, 2, 3, 4] [.wrote 1], .sendfile 2 3 [], .writev [[5], [], [6, 7]] [.eagain],
       .evTake true false false [.wrote 2, .eagain], .evEnd]
     s.closed = false ∧ s.wire = [1, 2, 3] ∧ pending g0 s.wl = [4, 2, 3, 4, 5, 6, 7] ∧
     s.accepted = [1, 2, 3, 4, 2, 3, 4, 5, 6, 7] := by decide
